@@ -2,6 +2,10 @@
 import importlib
 
 _MODULES = {
+    "C04": ("scen_api", "C04"),
+    "C05": ("scen_api", "C05"),
+    "C06": ("scen_api", "C06"),
+    "C13": ("scen_api", "C13"),
     "C16": ("scen_c16", "C16"),
     "C17": ("scen_c17", "C17"),
 }
